@@ -2,7 +2,7 @@
    and concrete instances showing that the hypotheses of every main theorem are satisfiable. *)
 From Coq Require Import List Bool Arith Lia ZArith.
 From QV Require Import Base.Mat Base.Zi C01.Model C01.Spec C01.Lib C01.ProofsCtrl C01.ProofsMat
-  C01.ProofsRun C01.ProofsDM C01.ProofsDMCor.
+  C01.ProofsRun C01.ProofsFused C01.ProofsQueue C01.ProofsDM C01.ProofsDMCor.
 Import ListNotations.
 
 Lemma Zi_semiring : semiring Ziops.
@@ -96,3 +96,19 @@ Example ex_unitary_hyp :
   Forall (gate_wf 2) ex_unitary_circuit /\
   mmul Ziops (madj Ziops zi_conj 2 (circ_op Ziops 2 ex_unitary_circuit)) (circ_op Ziops 2 ex_unitary_circuit) = midentity Ziops 2.
 Proof. split; [unfold ex_unitary_circuit, gate_wf; fin|vm_compute; reflexivity]. Qed.
+
+(* a queue with a FusedGate on the non-adjacent subset (0,2) of 3 qubits *)
+Definition ex_queue : list (qitem (T:=Zi)) :=
+  [QGate (false, [], [1], ex_M1);
+   QFused [0; 2] [(false, [], [2; 0], ex_M2); (true, [2], [0], ex_M1); (false, [], [2], ex_M1)];
+   QGate (true, [1], [2], ex_M1)].
+Example ex_queue_ok : Forall (item_ok 3) ex_queue.
+Proof.
+  unfold ex_queue, ex_M1, ex_M2.
+  repeat (apply Forall_cons || apply Forall_nil);
+    unfold item_ok, member_ok, gate_wf, gate_shape_ok, shape, gate_qubits; simpl; fin.
+Qed.
+Example ex_queue_value :
+  mvmul Ziops (unitary_queue Ziops 3 ex_queue) ex_psi = execute_queue Ziops 3 ex_queue ex_psi
+  /\ execute_queue Ziops 3 ex_queue ex_psi <> ex_psi.
+Proof. split; [vm_compute; reflexivity|vm_compute; discriminate]. Qed.
